@@ -60,6 +60,8 @@ def _random_records(ctx, count, nmax):
     recs, flat_recs = [], []
     for rid in range(1, count + 1):
         n = int(rng.randint(1, nmax + 1)) if rid % 4 else int(rng.randint(5, 80))
+        if rid % 7 == 3:
+            n = int(rng.randint(5, 60))           # (the single-precision mean records below)
         nid = int(rng.choice([2, 5, 40, 300]))
         pool = np.sort(rng.choice(np.arange(0, 2 * nid + 5), size=nid, replace=False))
         v = as_list(pool[rng.randint(0, nid, size=n)])
